@@ -11,6 +11,7 @@
 #include "battery.hpp"
 #include "cases.hpp"
 #include "graph.hpp"
+#include "mininif.hpp"
 
 using namespace nifly;
 using namespace vf;
@@ -122,7 +123,8 @@ std::string applyEdit(NifFile& x, Tape& t, bool& geometryEdit) {
 Verdict prop(Tape& t, Run& run) {
 	auto src = std::make_unique<NifFile>();
 	std::string desc, version;
-	uint8_t from = t.u8() % 3;
+	uint8_t from = t.u8() % 4;
+	std::string srcBytes; // the file the source was loaded from (file sources)
 	if (from == 0) {
 		static const size_t vers[] = {4, 5, 6, 7, 8, 11};
 		size_t vi = vers[t.u8() % 6];
@@ -132,11 +134,34 @@ Verdict prop(Tape& t, Run& run) {
 	}
 	else {
 		FileCase c = decodeFileCase(t, run);
-		if (!c.ok || loadBytes(*src, c.bytes) != 0) {
+		if (!c.ok) {
 			run.exclude("start file not usable");
 			return OK;
 		}
+		srcBytes = c.bytes;
 		desc = c.kind + ":" + c.label;
+		if (from == 3) {
+			// a file with block types the library does not register (kept as opaque blocks): the same
+			// file with one or all of its type names relabelled
+			auto in = mini::parse(c.bytes);
+			if (in.ok && in.ver.hasSizes() && !in.typeNames.empty()) {
+				mini::File rel = in;
+				uint8_t which = t.u8();
+				std::string names;
+				for (size_t i = 0; i < rel.typeNames.size(); i++)
+					if (which == 0xFF || i == which % rel.typeNames.size()) {
+						names += rel.typeNames[i] + " ";
+						rel.typeNames[i] = "Zq" + rel.typeNames[i];
+					}
+				srcBytes = mini::write(rel);
+				desc += " with unknown block types: " + names;
+				run.cls("source:file-with-unknown-blocks");
+			}
+		}
+		if (loadBytes(*src, srcBytes) != 0) {
+			run.exclude("start file not usable");
+			return OK;
+		}
 		version = c.version;
 	}
 	const bool synth = desc.rfind("synth", 0) == 0;
@@ -179,8 +204,26 @@ Verdict prop(Tape& t, Run& run) {
 	if (b0 != bc)
 		return run.fail("C11:not-equal:" + howName, detail("the copy does not save to the same bytes as the source", "", firstDiff(b0, bc)));
 	std::string q0 = battery(*src, bo);
-	if (battery(*copy, bo) != q0)
-		return run.fail("C11:not-equal-queries:" + howName, detail("a query answers differently on the copy", "", ""));
+	{
+		std::string qc = battery(*copy, bo);
+		if (qc != q0)
+			return run.fail("C11:not-equal-queries:" + howName, detail("a query answers differently on the copy", "", batteryDiff(q0, qc)));
+	}
+	// "saves to the same bytes", through Save() itself with its default options and without a
+	// further copy in between: a second copy is saved directly and compared with what an
+	// independently loaded twin of the source saves (file sources only)
+	if (!srcBytes.empty()) {
+		NifFile twin;
+		if (loadBytes(twin, srcBytes) == 0) {
+			battery(twin, bo);
+			NifFile copy2(*src);
+			std::string dTwin, dCopy, rTwin, rCopy;
+			int rc1 = saveBytes(twin, dTwin, defOpts()), rc2 = saveBytes(copy2, dCopy, defOpts());
+			run.cls("default-save-compared-with-twin");
+			if (rc1 != rc2 || dTwin != dCopy)
+				return run.fail("C11:not-equal-default-save:" + howName, detail("a copy does not save (default options) to the bytes an identical, independently loaded model saves to", "", firstDiff(dTwin, dCopy)));
+		}
+	}
 
 	// ---- edit one side
 	const bool editCopy = t.coin();
@@ -243,6 +286,11 @@ void deterministic(Run& run, const std::function<void(const std::vector<uint8_t>
 			for (uint8_t edit = 0; edit < 12; edit++)
 				for (uint8_t side = 0; side < 2; side++)
 					feed({1, 1, static_cast<uint8_t>(i), how, side, 0 /*one edit*/, edit, 0, 0, 0, 0});
+	// every sample with one (each of the first eight) or all type names unknown x copy kind
+	for (size_t i = 0; i < n; i++)
+		for (uint8_t how = 0; how < 3; how++)
+			for (uint8_t which : {0, 1, 2, 3, 4, 5, 6, 7, 0xFF})
+				feed({3, 1, static_cast<uint8_t>(i), which, how, 1, 0, 8 /*Save*/, 1, 0, 0});
 }
 
 } // namespace
